@@ -140,50 +140,62 @@ def dither(ctx, R="R-C18-dither-independence"):
     prog = ctx.prog
     f = _apply(prog, "Dither")
     sig = f.params[1]
-    draws = [c for c in astq.func_calls(f) if (prog.qualify(f.module, c.func, f) or "").startswith("numpy.random.")]
-    other = [c for c in astq.func_calls(f) if isinstance(c.func, ast.Attribute) and c.func.attr in ("normal", "randn", "standard_normal", "random", "uniform")
-             and c not in draws]
-    ctx.check(not other, R, f, other[0] if other else MISSING(f.node), "noise comes from the global NumPy generator (reproducible under numpy.random.seed)",
-              "noise is drawn by %s, not from numpy.random's global generator; numpy.random.seed no longer reproduces it"
-              % (astq.text(other[0].func) if other else ""))
-    ctx.check(len(draws) >= 1, R, f, f.node, "Dither.apply draws its noise with numpy.random.*", "no numpy.random draw in Dither.apply")
-    for c in draws:
-        q = prog.qualify(f.module, c.func, f)
-        ctx.check(q == "numpy.random.normal", R, f, c, "the draw is numpy.random.normal", "the draw is %s" % q)
-        if q != "numpy.random.normal" or len(c.args) < 3:
+    pm = astq.parents(f)
+    adds = [n for n in f.body_nodes() if isinstance(n, ast.AugAssign) and isinstance(n.op, ast.Add) and astq.is_name(n.target, sig)]
+    ctx.check(len(adds) >= 1, R, f, adds[0] if adds else MISSING(f.node), "the noise enters by addition to the signal", "no `signal += noise` in Dither.apply")
+    ev = SymEval(prog, f, inline_props=False)
+    ev.env = {}
+    DRAWS = {"np.random.normal": "normal", "np.random.standard_normal": "std", "np.random.randn": "std"}
+    coeff = S.sym("self.coeff")
+    for a in adds:
+        e = ev.expr(a.value)
+        draws = [x for x in S.walk(e) if x.op == "call" and x.args[0] in DRAWS]
+        other = [x for x in S.walk(e) if x.op == "call" and (x.args[0].startswith(".normal") or x.args[0].startswith(".standard_normal") or x.args[0].startswith(".randn") or x.args[0].startswith(".random"))]
+        if other:
+            ctx.bad(R, f, a, "noise is drawn by %s, not from numpy.random's global generator; numpy.random.seed no longer reproduces it" % S.show(other[0])[:60],
+                    "noise comes from the global NumPy generator")
             continue
-        loc, scale, size = c.args[:3]
-        ctx.check(isinstance(loc, ast.Constant) and loc.value == 0, R, f, c, "the noise has mean 0", "noise mean is %s" % astq.text(loc))
-        ctx.check(astq.text(scale) == "self.coeff", R, f, c, "the noise scale is coeff (linear in coeff, none at coeff = 0)", "noise scale is %s" % astq.text(scale))
-        names = {x.id for x in ast.walk(size) if isinstance(x, ast.Name)}
-        sig_uses = [x for x in ast.walk(size) if isinstance(x, ast.Name) and x.id == sig]
-        pm = astq.parents(f)
-        ok = True
-        for x in sig_uses:
-            par = pm.get(id(x))
-            if not (isinstance(par, ast.Attribute) and par.attr in ("shape", "ndim", "size")):
-                ok = False
+        if len(draws) != 1:
+            raise AnalysisError("%s: random draw not recognised in `%s`" % (R, astq.text(a)[:80]))
+        d = draws[0]
+        kind = DRAWS[d.args[0]]
+        if kind == "normal":
+            ok_form = e == d and len(d.args) >= 4
+            loc, scale, size = (d.args[1], d.args[2], d.args[3]) if ok_form else (None, None, None)
+        else:
+            # coeff * standard_normal(shape)
+            ok_form = e.op == "mul" and d in e.args
+            scale = [x for x in e.args if x is not d][0] if ok_form else None
+            loc, size = S.ZERO, (d.args[1] if len(d.args) > 1 else None)
+        if not ok_form:
+            raise AnalysisError("%s: noise expression not of the form normal(0, coeff, shape) / coeff * standard_normal(shape): %s" % (R, S.show(e)[:100]))
+        ctx.check(loc == S.ZERO, R, f, a, "the noise has mean 0", "noise mean is %s" % S.show(loc))
+        ctx.check(scale == coeff, R, f, a, "the noise scale is the object's coeff, read when apply is called (linear in coeff, none at coeff = 0)",
+                  "the noise is scaled by %s, not by self.coeff as it is when apply runs: changing coeff (or coeff = 0) no longer changes the noise accordingly"
+                  % S.show(scale))
+        names = set(S.symbols(size)) if size is not None else set()
+        ok = size is not None and all(nm in (sig + ".shape", sig + ".ndim", "random_shape", "axis") or nm.startswith("self.") is False and nm in (sig + ".shape",) for nm in names if nm != "random_shape" and nm != "axis")
         if "random_shape" in names:
-            # random_shape = [1] * len(signal.shape); random_shape[axis] = signal.shape[axis]
             defs = [n for n in f.body_nodes() if isinstance(n, ast.Assign) and astq.base_name(n.targets[0]) == "random_shape"]
-            for d in defs:
-                for x in ast.walk(d.value):
+            for dnode in defs:
+                for x in ast.walk(dnode.value):
                     if isinstance(x, ast.Name) and x.id == sig:
                         par = pm.get(id(x))
                         if not (isinstance(par, ast.Attribute) and par.attr in ("shape", "ndim", "size")):
                             ok = False
-        ctx.check(ok, R, f, c, "the draw depends on the signal only through its shape (signal-independent noise)",
-                  "the size/arguments of the draw depend on the signal's values: %s" % astq.text(size))
-        st = astq.enclosing_stmt(pm, c)
-        ok = isinstance(st, ast.AugAssign) and isinstance(st.op, ast.Add) and astq.is_name(st.target, sig) and st.value is c
-        ctx.check(ok, R, f, st, "the noise enters by one addition", "noise is combined as `%s`" % astq.text(st)[:80])
+        bad_names = [nm for nm in names if nm == sig]
+        ctx.check(ok and not bad_names, R, f, a, "the draw depends on the signal only through its shape (signal-independent noise)",
+                  "the size of the draw depends on %s" % sorted(names))
     fresh_and_pure_no_return(ctx, R, f)
+    init = prog.own_method(prog.cls("pre.Dither"), "__init__")
+    st = [n for n in init.body_nodes() if isinstance(n, ast.Assign) and astq.is_self_attr(n.targets[0], init.params[0], "coeff")]
+    ctx.check(len(st) == 1 and astq.text(st[0].value) == "coeff", R, init, st[0] if st else MISSING(init.node), "coeff is stored unchanged")
     g = prog.func("torch.pytorch_dither")
-    ev = SymEval(prog, g).run()
-    v = ev.returns[0][1]
+    evg = SymEval(prog, g).run()
+    v = evg.returns[0][1]
     sg, cf = S.sym(g.params[0]), S.sym(g.params[1])
     want = S.add(sg, S.mul(cf, S.call("torch.randn_like", sg)))
-    ctx.check(S.compare(v, want, domain={})["verdict"] == "equal", R, g, ev.returns[0][2], "the torch twin is sig + coeff * randn_like(sig)",
+    ctx.check(S.compare(v, want, domain={})["verdict"] == "equal", R, g, evg.returns[0][2], "the torch twin is sig + coeff * randn_like(sig)",
               "pytorch_dither returns %s" % S.show(v)[:100])
 
 
